@@ -5,6 +5,8 @@
   (what `idx_of_dist` establishes on IEEE doubles, composed with the interpolation bound) and Props/C19IeeeFinite.lean (the
   no-overflow conditions of the interpolation, derived; `segFinite_statement` refuted as recorded) and Props/C19IeeeLipschitz.lean
   (the arc-length clause across segments on IEEE floats: `position_lipschitz_float32`). All in namespace Rosu.C19.
+  no-overflow conditions of the interpolation, derived; `segFinite_statement` refuted as recorded) and
+  Props/C19DecodedLinear.lean (end to end for linear sliders: the hypotheses derived for the curve `Curve::new` computes). All in namespace Rosu.C19.
 -/
 import RosuModel.Props.C19Curve
 import RosuModel.Props.C19Ieee
@@ -14,3 +16,4 @@ import RosuModel.Props.C19IeeeErr
 import RosuModel.Props.C19IeeeSearch
 import RosuModel.Props.C19IeeeFinite
 import RosuModel.Props.C19IeeeLipschitz
+import RosuModel.Props.C19DecodedLinear
